@@ -292,6 +292,15 @@ def run(tier, seed, factor=1):
                 res.dist[f"op={o[0]}"] += 1
             text += lines
             metas.append((cls.__name__, empties, ops, outs))
+    # (a') one long history per flavour: a few thousand distinct classes, then the early ones again (a database whose behaviour
+    # depends on how much it already holds must still give every class its first label)
+    big = 2300
+    for cls in (K, KB):
+        ops = [("L", x) for x in range(big)] + [("L", x) for x in (0, 1, 7, 341, 2047, 2048, big - 1)] + [("CC", 5), ("G", 5), ("G", big - 1)]
+        lines, outs = run_history(res, cls, set(), ops)
+        res.case((cls.__name__, "long", big), nontrivial=True)
+        text += lines
+        metas.append((cls.__name__, set(), ops, outs))
     # (b) through the searcher
     import speccheck
     import specrun
